@@ -4,13 +4,20 @@ namespace PolyVerif.Driver.C11
 open PolyVerif PolyVerif.Transform
 
 /-- What this check can enumerate and ship through the line protocol: at most 2·10^6 readings and
-3·10^7 letters in total.  A parameter of the CHECK (not of the code, not of the property — the property
-states no bound): below it the full expansion is demanded, above it only "no wrong answer".
-The harness op `variants` (harness/cmd/run-seq/ops.go: `iupacCount`, `canEnumerate`) computes the same
-predicate from its own table of code sizes. -/
+5·10^7 letters in total (so 10^4 letters with 4096 readings are enumerated).  A parameter of the CHECK
+(not of the code, not of the property — the property states no bound): below it the full expansion is
+demanded and judged entry by entry.  The harness op `variants` (harness/cmd/run-seq/ops.go:
+`iupacCount`, `regime`) computes the same predicates from its own table of code sizes. -/
 def canEnumerate (cs : Str) : Bool :=
   let count := Spec.readingCount cs
-  count ≤ 2000000 && count * (cs.length + 1) ≤ 30000000
+  count ≤ 2000000 && count * (cs.length + 1) ≤ 50000000
+
+/-- Beyond `canEnumerate` but within the memory the code needs to build the list (readings × (letters+1)
+≤ 2.3·10^8, about 3 GB; e.g. N^11, N^11 R, N^12): the code IS called, and the harness replies with the
+COUNT and a sample of the list (entries 0, 10^5, 2·10^5, …, last).  Judged: not refused, the count is
+the number of readings, every sampled entry is a reading, sampled entries pairwise distinct.  This is
+what makes a lowered overflow guard visible. -/
+def sampledBudget : Nat := 230000000
 
 /-- safety parameter of the HARNESS: an input that cannot be enumerated and has at most this many
 readings is not submitted to the code (it would try to build up to terabytes); above it the code is
@@ -19,6 +26,14 @@ called.  In the verdict it only separates "not called, so only the harness's `to
 back" from "called, so only a refusal may come back"; whether the full expansion is demanded is
 decided by `canEnumerate` alone. -/
 def harnessCallsAbove : Nat := 2147483647
+
+/-- the `i`-th entry of `cart ls` (odometer order, last position fastest), computed directly: the
+mixed-radix digits of `i`.  Used only to PREDICT the sampled entries for the correspondence (never in a
+verdict, not proved equal to `(cart ls)[i]`; on every enumerated case `cart` itself is compared). -/
+def nthVariant (ls : List (List Char)) (i : Nat) : Str :=
+  (ls.foldr (fun l (acc : Str × Nat) =>
+    let n := l.length
+    if n = 0 then acc else (l.getD (acc.2 % n) ' ' :: acc.1, acc.2 / n)) ([], i)).1
 
 /-- cases: `revcomp s` | `variants s` -/
 def render (f : List String) : List String := f
@@ -73,6 +88,22 @@ def judge (f out : List String) : Verdict :=
       { corr := outN == m, judge := if inDom then some j else none,
         cls := (if cs.all Spec.isAcgt then "triv:" else "") ++ "variants",
         detail := if outN == m && j then "" else lineOf (m.take 2) }
+    else if count ≤ harnessCallsAbove && count * (cs.length + 1) ≤ sampledBudget then
+      -- sampled regime: the code is called; the reply is `ok sampled <count> <sample>`
+      let idxs := (List.range ((count + 99999) / 100000)).map (· * 100000) ++
+                  (if count > 0 && (count - 1) % 100000 != 0 then [count - 1] else [])
+      let m := match variantLists cs with
+        | some ls => if countGuard ls 1 then
+            ["ok", "sampled", toString count, ",".intercalate (idxs.map fun i => String.ofList (nthVariant ls i))]
+          else ["err"]
+        | none => ["err"]
+      let j := match out with
+        | ["ok", "sampled", n, smp] =>
+          let got := (smp.splitOn ",").map String.toList
+          n == toString count && got.length == idxs.length && got.all (Spec.reads cs) && Spec.allDistinct got
+        | _ => false        -- a refusal here is a FAIL: the full expansion is due and the code can build it
+      { corr := outN == m, judge := some j, cls := "variants/sampled",
+        detail := if outN == m && j then "" else lineOf (m.take 3) }
     else
       -- the expansion is too large for this check to receive (and, far beyond, for any machine to
       -- build).  The only replies that do not contradict the property are a refusal and the harness's
